@@ -19,7 +19,7 @@ GLOBS = ['ga', 'gb']
 KIDS = ['k1', 'k2', 'k3']
 PORTS = ['pa', 'pb', 'pc', 'pd']
 GLOBDICT_WEIGHT = [0]      # weight of glob ports with a '*' sub-topology in gen_port (set by the callers)
-STAR_TUPLE = [False]       # tuple-path '*' entries and named ports wired into glob children (needs repair F21)
+STAR_TUPLE = [True]        # tuple-path '*' entries and named ports wired into glob children (since repair F21)
 GLOBS_R = ['gc', 'gd']     # glob nodes whose '*' sub-topology redirects sub-variables (one sub-topology per node)
 ALL_NAMES = COMPS + BRANCH + NEST + VARS + GLOBS + KIDS + PORTS + ['p0', 'p1', 'p2', 'p3'] + GLOBS_R
 
